@@ -37,12 +37,23 @@ func (b Bundle) Fragment(mtu int) (bs []Bundle, err error) {
 
 		payloadBlock    *CanonicalBlock
 		payloadBlockLen int
+
+		fragmentOffset  int
+		totalDataLength int
 	)
 
 	if payloadBlock, err = b.PayloadBlock(); err != nil {
 		return
 	}
 	payloadBlockLen = len(payloadBlock.Value.(*PayloadBlock).Data())
+
+	// Fragments of a fragment keep their position within the original payload and its total length.
+	if b.PrimaryBlock.HasFragmentation() {
+		fragmentOffset = int(b.PrimaryBlock.FragmentOffset)
+		totalDataLength = int(b.PrimaryBlock.TotalDataLength)
+	} else {
+		totalDataLength = payloadBlockLen
+	}
 
 	if extFirstOverhead, extOtherOverhead, err = fragmentExtensionBlocksLen(b, mtu); err != nil {
 		return
@@ -54,7 +65,7 @@ func (b Bundle) Fragment(mtu int) (bs []Bundle, err error) {
 			primaryOverhead  int
 		)
 
-		if fragPrimaryBlock, primaryOverhead, err = fragmentPrimaryBlock(b.PrimaryBlock, i, payloadBlockLen); err != nil {
+		if fragPrimaryBlock, primaryOverhead, err = fragmentPrimaryBlock(b.PrimaryBlock, fragmentOffset+i, totalDataLength); err != nil {
 			return
 		}
 
